@@ -99,6 +99,15 @@ async fn handle_spawn_event(
     let mut expression = String::new();
     reader.read_to_string(&mut expression).await?;
 
+    // An expression that does not parse can never run: refuse the spawn instead of starting it
+    {
+        let mut working_set = nu_protocol::engine::StateWorkingSet::new(&engine.state);
+        nu_parser::parse(&mut working_set, None, expression.as_bytes(), false);
+        if let Some(err) = working_set.parse_errors.first() {
+            return Err(format!("Parse error: {err}").into());
+        }
+    }
+
     let task = GeneratorTask {
         id: frame.id,
         context_id: frame.context_id,
@@ -258,9 +267,11 @@ async fn spawn(engine: nu::Engine, store: Store, task: GeneratorTask) {
     let handle = tokio::runtime::Handle::current().clone();
 
     std::thread::spawn(move || {
+        // Only strings become `.recv` frames. Anything else the pipeline yields - and a pipeline
+        // that fails to evaluate - produces nothing; the lifecycle still ends with `.stop`.
         let pipeline = engine
             .eval(input_pipeline, task.expression.clone())
-            .unwrap();
+            .unwrap_or(PipelineData::Empty);
 
         match pipeline {
             PipelineData::Empty => {
@@ -271,8 +282,6 @@ async fn spawn(engine: nu::Engine, store: Store, task: GeneratorTask) {
                     handle
                         .block_on(async { append(store.clone(), &task, "recv", Some(val)).await })
                         .unwrap();
-                } else {
-                    panic!("Unexpected Value type in PipelineData::Value");
                 }
             }
             PipelineData::ListStream(mut stream, _) => {
@@ -283,14 +292,10 @@ async fn spawn(engine: nu::Engine, store: Store, task: GeneratorTask) {
                                 append(store.clone(), &task, "recv", Some(val)).await
                             })
                             .unwrap();
-                    } else {
-                        panic!("Unexpected Value type in ListStream");
                     }
                 }
             }
-            PipelineData::ByteStream(_, _) => {
-                panic!("ByteStream not supported");
-            }
+            PipelineData::ByteStream(_, _) => {}
         }
 
         handle
